@@ -6,7 +6,8 @@ import ScVerif.C18.PropsMode
 The step-function laws of PropsSeg/PropsMode carry the hypothesis `NonNeg` (present lengths are not
 negative).  Here: every operation that returns segments returns a `NonNeg` list again — `Sum` even one
 whose present lengths are strictly positive and in which only the last element may be length-less — so
-the laws apply to results of results (`C18_compose` is one such chain).  Then the corner cases the
+the laws apply to results of results (`C18_compose` is one such chain, `C18_algebra` the identities of
+`Sum` and `Shift` that follow).  Then the corner cases the
 general theorems contain, stated on their own: a query before the start time of a mode, `Max*` on lists
 whose counted magnitudes are all zero or negative, `Sum` of lists that all begin idle.
 
@@ -60,6 +61,131 @@ theorem C18_compose (d c : Int) (a : List Seg) (s : Seg) (ha : NonNeg a) (hs : N
   rw [C18_shift d a ha t, den_optToList, ((C18_cut c s).1 hc).2.2 t ht]
   have : ¬ t < 0 := by omega
   simp [this]
+
+/-- The algebra of `Sum` and `Shift` on step functions, for all lists with non-negative lengths: `Sum` of one
+list is that list; the order of the lists is irrelevant; nesting is irrelevant (`Sum` of `Sum`s is the `Sum`
+of everything — the inner results are well-formed again, `C18_closed`); `Sum` of nothing is nothing;
+right shifts add up; and a right shift distributes over `Sum`. -/
+theorem C18_algebra (a b : List (List Seg)) (l : List Seg) (d e : Int)
+    (ha : AllNonNeg a) (hb : AllNonNeg b) (hl : NonNeg l) (hd : 0 ≤ d) (he : 0 ≤ e) (t : Int) :
+    den (sum [l]) t = den l t ∧
+    den (sum (a ++ b)) t = den (sum (b ++ a)) t ∧
+    den (sum [sum a, sum b]) t = den (sum (a ++ b)) t ∧
+    sum [] = [] ∧
+    den (shift d (shift e l)) t = den (shift (d + e) l) t ∧
+    den (sum (a.map (shift d))) t = den (shift d (sum a)) t := by
+  have hone : AllNonNeg [l] := fun x hx => by simp at hx; subst hx; exact hl
+  have hsa := (C18_closed 0 ⟨0, none⟩ [] a (fun s hs => by simp at hs; subst hs; intro l hl; cases hl)
+    (fun s hs => by simp at hs) ha).2.2.2.1
+  have hsb := (C18_closed 0 ⟨0, none⟩ [] b (fun s hs => by simp at hs; subst hs; intro l hl; cases hl)
+    (fun s hs => by simp at hs) hb).2.2.2.1
+  have hnest : AllNonNeg [sum a, sum b] := by
+    intro x hx
+    simp only [List.mem_cons, List.not_mem_nil, or_false] at hx
+    rcases hx with rfl | rfl
+    · exact hsa
+    · exact hsb
+  refine ⟨?_, ?_, ?_, by decide, ?_, ?_⟩
+  · rw [C18_sum _ hone t]; simp [denSum]
+  · rw [C18_sum _ (allNonNeg_append ha hb) t, C18_sum _ (allNonNeg_append hb ha) t,
+      denSum_append, denSum_append]; omega
+  · rw [C18_sum _ hnest t, C18_sum _ (allNonNeg_append ha hb) t, denSum_append]
+    simp only [denSum]
+    rw [C18_sum _ ha t, C18_sum _ hb t]; omega
+  · rw [C18_shift_right d _ (shift_nonNeg_any e l hl) hd t, C18_shift_right e l hl he (t - d),
+      C18_shift_right (d + e) l hl (by omega) t]
+    congr 1; omega
+  · have hmap : AllNonNeg (a.map (shift d)) := by
+      intro x hx
+      obtain ⟨y, hy, rfl⟩ := List.mem_map.mp hx
+      exact shift_nonNeg_any d y (ha y hy)
+    rw [C18_sum _ hmap t, C18_shift_right d _ hsa hd t, C18_sum _ ha (t - d)]
+    clear hmap hsa hsb hnest
+    induction a with
+    | nil => rfl
+    | cons x a ih =>
+      simp only [List.map_cons, denSum]
+      rw [C18_shift_right d x (ha x List.mem_cons_self) hd t,
+        ih (fun y hy => ha y (List.mem_cons_of_mem _ hy))]
+
+/-- Round trips on step functions.  Segments: the two parts of `Cut(d ≥ 0)`, the second shifted back by `d`,
+sum up to the segment; shifting right by `d` and then left by `d` gives the list back.  (Through `Shift` and
+`Sum`, which only works because every intermediate result is well-formed again.) -/
+theorem C18_roundtrip (d : Int) (s : Seg) (l : List Seg) (hs : NonNeg [s]) (hl : NonNeg l) (hd : 0 ≤ d) (t : Int) :
+    den (sum [optToList (cutSeg d s).before, shift d (optToList (cutSeg d s).after)]) t = den [s] t ∧
+    den (shift (-d) (shift d l)) t = den l t := by
+  obtain ⟨hnb, hna⟩ := cutSeg_nonNeg d s hs
+  have hall : AllNonNeg [optToList (cutSeg d s).before, shift d (optToList (cutSeg d s).after)] := by
+    intro x hx
+    simp only [List.mem_cons, List.not_mem_nil, or_false] at hx
+    rcases hx with rfl | rfl
+    · exact hnb
+    · exact shift_nonNeg_any d _ hna
+  obtain ⟨c1, c2, c3⟩ := (C18_cut d s).1 hd
+  constructor
+  · rw [C18_sum _ hall t]
+    simp only [denSum]
+    rw [C18_shift_right d _ hna hd t, den_optToList, den_optToList]
+    by_cases ht : t < d
+    · rw [c1 t ht]
+      have : denOpt (cutSeg d s).after (t - d) = 0 := by
+        rw [← den_optToList]; exact den_neg _ _ (by omega)
+      omega
+    · rw [c2 t (by omega), c3 (t - d) (by omega)]
+      have : t - d + d = t := by omega
+      rw [this]; omega
+  · rw [C18_shift (-d) _ (shift_nonNeg_any d l hl) t]
+    by_cases ht : t < 0
+    · simp only [ht, if_true]; exact (den_neg _ _ ht).symm
+    · simp only [ht, if_false]
+      rw [C18_shift_right d l hl hd]
+      congr 1; omega
+
+/-- Round trip for modes: whenever `modepb.Cut(t, mode)` returns two parts, `modepb.Sum(before, after)` is the
+mode again as a step function on the absolute timeline. -/
+theorem C18_modes_cut_roundtrip (t : Int) (m : Mode) (hnn : NonNeg m.segs) (b a : Mode)
+    (hb : (modeCut t m).before = some b) (ha : (modeCut t m).after = some a) :
+    ∃ r, modeSum [b, a] = some r ∧ ∀ x, modeDen t r x = modeDen t m x := by
+  obtain ⟨cb, ca⟩ := modeCut_nonNeg t m hnn
+  rw [hb] at cb; rw [ha] at ca
+  have hnn2 : ∀ x ∈ [b, a], NonNeg x.segs := by
+    intro x hx
+    simp only [List.mem_cons, List.not_mem_nil, or_false] at hx
+    rcases hx with rfl | rfl
+    · exact cb
+    · exact ca
+  obtain ⟨r, hr, h1, h2⟩ := C18_modes_sum [b, a] (by simp) hnn2
+  refine ⟨r, hr, fun x => ?_⟩
+  rcases modeCut_two_sided t m b a hb ha with ⟨hnil, hbm, ham⟩ | ⟨s, hms, hst, hbs, has⟩
+  · -- no segments at all: everything is 0
+    have hz : modeDen t m x = 0 := by unfold modeDen; rw [hnil]; rfl
+    have hbn : b.segs = [] := by rw [hbm]; exact hnil
+    have han : a.segs = [] := by rw [ham]; exact hnil
+    rw [hz]
+    by_cases hstarts : starts [b, a] = []
+    · obtain ⟨hrs, hden⟩ := h1 hstarts
+      unfold modeDen
+      rw [hden]
+      simp [denSum, hbn, han, den]
+    · obtain ⟨e, l, _, _, _, _, hden⟩ := h2 hstarts
+      rw [hden t x]
+      simp [modeDenSum, modeDen, hbn, han, den]
+  · have hstarts : starts [b, a] = [s, t] := by simp [starts, hbs, has]
+    have hne : starts [b, a] ≠ [] := by rw [hstarts]; simp
+    obtain ⟨e, l, _, hl, hbounds, _, hden⟩ := h2 hne
+    rw [hden t x]
+    have hb' : ∀ ref, modeDen ref b x = modeDen t b x := fun ref => by unfold modeDen; rw [hbs]; rfl
+    have ha' : ∀ ref, modeDen ref a x = modeDen t a x := fun ref => by unfold modeDen; rw [has]; rfl
+    simp only [modeDenSum, hb' l, ha' l]
+    obtain ⟨c1, c2, c3⟩ := C18_modes_cut t m hnn
+    rw [hb] at c1 c2; rw [ha] at c3
+    simp only [modeDenOpt] at c1 c2 c3
+    by_cases hx : x < t
+    · rw [c1 x hx]
+      have : modeDen t a x = 0 := by
+        unfold modeDen; rw [has]; simp only [Option.getD_some]; exact den_neg _ _ (by omega)
+      omega
+    · rw [c2 x (by omega), c3 x (by omega)]; omega
 
 /-- Before its start time a mode is not there: `modepb.MagnitudeAt` answers `(0, false)` whatever the first
 segment is, `modepb.ActiveAt` the documented `(t − start, 0)` with a negative elapsed time, the step
@@ -142,6 +268,16 @@ theorem C18_sum_leading_idle (ls : List (List Seg)) (h : AllNonNeg ls) (a : Int)
     rfl
 
 /-! Non-vacuity and concrete values: the named corner cases on concrete inputs. -/
+example : (modeCut 5 ⟨some 2, [⟨1, some 2⟩, ⟨2, some 4⟩, ⟨3, some 1⟩]⟩).before = some ⟨some 2, [⟨1, some 2⟩, ⟨2, some 1⟩]⟩ ∧
+    (modeCut 5 ⟨some 2, [⟨1, some 2⟩, ⟨2, some 4⟩, ⟨3, some 1⟩]⟩).after = some ⟨some 5, [⟨2, some 3⟩, ⟨3, some 1⟩]⟩ ∧
+    modeSum [⟨some 2, [⟨1, some 2⟩, ⟨2, some 1⟩]⟩, ⟨some 5, [⟨2, some 3⟩, ⟨3, some 1⟩]⟩]
+      = some ⟨some 2, [⟨1, some 2⟩, ⟨2, some 1⟩, ⟨2, some 3⟩, ⟨3, some 1⟩]⟩ := by decide
+example : sum [optToList (cutSeg 2 ⟨5, some 3⟩).before, shift 2 (optToList (cutSeg 2 ⟨5, some 3⟩).after)]
+    = [⟨5, some 2⟩, ⟨5, some 1⟩] ∧ shift (-2) (shift 2 [⟨4, some 1⟩, ⟨1, none⟩]) = [⟨4, some 1⟩, ⟨1, none⟩] := by decide
+example : sum [sum [[⟨1, some 2⟩], [⟨2, some 3⟩]], sum [[⟨0, some 1⟩, ⟨-1, none⟩]]]
+    = sum [[⟨1, some 2⟩], [⟨2, some 3⟩], [⟨0, some 1⟩, ⟨-1, none⟩]] := by decide
+example : shift 2 (shift 3 [⟨4, some 1⟩]) = [⟨0, some 5⟩, ⟨4, some 1⟩] ∧ shift 5 [⟨4, some 1⟩] = [⟨0, some 5⟩, ⟨4, some 1⟩] := by
+  decide
 example : modeMagnitudeAt 4 ⟨some 5, [⟨7, some 2⟩]⟩ = (0, false) ∧ modeActiveAt 4 ⟨some 5, [⟨7, some 2⟩]⟩ = (-1, 0) := by
   decide
 example : maxIdx [⟨0, some 5⟩] = 0 ∧ maxIdx [⟨-3, some 2⟩, ⟨-1, some 2⟩] = 1 ∧
